@@ -44,6 +44,13 @@ def gen_catalog(rng, loaded=True):
             e += "," + "+".join(recs)
         entries.append(e)
         names.append((nm, cl))
+        if rng.random() < 0.12:
+            # a configuration change: Catalog::remove of an entry inserted so far (often the parent or the child of a
+            # nested pair: the removal must not disturb the other), or of a name that was never inserted
+            rn, rc = rng.choice(names) if rng.random() < 0.8 else (rng.choice(ZONE_NAMES), rng.choice([1, 3, 7]))
+            if rng.random() < 0.2:
+                rn = [l.swapcase() for l in rn]
+            entries.append(f"{rc},{hx(enc_name(rn))},R")
     return ";".join(entries), names
 
 
@@ -61,7 +68,90 @@ def rr(name, ty, cl, ttl, rd):
     return name + u16(ty) + u16(cl) + u32(ttl) + u16(len(rd)) + rd
 
 
+def boundary_owner(rng):
+    """owners at the limits of 'the first label sequence': 253..256 octets with the terminator, ended by the root
+    label or by a pointer, a bare pointer, a pointer whose second octet is the last one available, reserved
+    label types 0x40 / 0x80, a 63 / 64-octet label"""
+    def seq(total):                      # labels filling `total` octets (without the terminator)
+        out, left = [], total
+        while left > 0:
+            l = min(63, left - 1)
+            if l <= 0:
+                out += [1, 0x61]; left -= 2
+                continue
+            out += [l] + [0x61] * l
+            left -= l + 1
+        return out
+    r = rng.randrange(9)
+    if r == 0:
+        return seq(rng.choice([252, 253, 254, 255])) + [0]
+    if r == 1:
+        return seq(rng.choice([252, 253, 254, 255])) + [0xC0, 12]
+    if r == 2:
+        return [0xC0, rng.choice([0, 12, 0xFF])]
+    if r == 3:
+        return [rng.choice([0x40, 0x80, 0xBF]), 1, 2]
+    if r == 4:
+        return [63] + [0x62] * 63 + [0]
+    if r == 5:
+        return [64] + [0x62] * 64 + [0]
+    if r == 6:
+        return [1, 0x61, rng.choice([0xC0, 0xFF])]          # pointer cut in the middle (if last in the message)
+    if r == 7:
+        return enc_name([b"A" * 10, b"b"])
+    return [0]
+
+
+def bad_opt_rdata(rng):
+    """OPT RDATA whose options do not tile it (or just do): overrunning length, 1..3 stray octets, zero-length options"""
+    r = rng.randrange(5)
+    if r == 0:
+        return u16(10) + u16(5) + [1, 2, 3, 4]               # length overruns by one
+    if r == 1:
+        return u16(10) + u16(4) + [1, 2, 3, 4] + [9] * rng.randint(1, 3)
+    if r == 2:
+        return u16(8) + u16(0) + u16(9) + u16(0)             # two empty options: fine
+    if r == 3:
+        return u16(8) + u16(0xFFFF) + [0] * 8
+    return u16(3) + u16(2) + [7, 7]                          # fine
+
+
+def bad_tsig_rdata(rng):
+    """TSIG RDATA with exactly one layout defect (or none): algorithm name compressed / too long / cut, MAC size or
+    other-len off by one, missing tail fields, trailing octet"""
+    alg = enc_name([b"hmac-sha256"])
+    mac = [rng.randrange(256) for _ in range(rng.choice([0, 16, 32]))]
+    t = [0, 0, 0x65, 0x53, 0xF1, 0]
+    other = rng.choice([[], [1, 2, 3, 4, 5, 6]])
+    def build(alg=alg, macsz=len(mac), mac=mac, otherlen=len(other), other=other):
+        return alg + t + u16(300) + u16(macsz) + mac + u16(0x1234) + u16(0) + u16(otherlen) + other
+    r = rng.randrange(10)
+    if r == 0:
+        return build(macsz=len(mac) + 1)
+    if r == 1:
+        return build(otherlen=len(other) + 1)
+    if r == 2:
+        return build(otherlen=max(0, len(other) - 1)) if other else build() + [0]
+    if r == 3:
+        return build(alg=[0xC0, 12])
+    if r == 4:
+        return build(alg=[64] + [0x61] * 64 + [0])
+    if r == 5:
+        return build(alg=[4, 0x68, 0x6D, 0x61, 0x63])       # name without terminator
+    if r == 6:
+        return build()[:len(alg) + rng.choice([0, 5, 9, 10])]
+    if r == 7:
+        return build(alg=[0])                                # root algorithm name: layout fine
+    if r == 8:
+        return build(alg=[63] + [0x61] * 63 + [63] + [0x62] * 63 + [63] + [0x63] * 63 + [rng.choice([61, 62])] + [0x64] * 62 + [0])
+    return build()
+
+
 def gen_opt(rng):
+    if rng.random() < 0.08:
+        return rr(boundary_owner(rng), 41, 1232, 0, [])
+    if rng.random() < 0.08:
+        return rr(enc_name([]), 41, 1232, rng.choice([0, 0x00010000]), bad_opt_rdata(rng))
     owner = enc_name([]) if rng.random() < 0.85 else gen_owner(rng, [b"x"])
     ver = rng.choice([0, 0, 0, 0, 1, 2, 255, rng.randrange(256)])
     top = rng.choice([0, 0, 0, 0x80, rng.randrange(256)])
@@ -72,6 +162,9 @@ def gen_opt(rng):
 
 
 def gen_tsig(rng):
+    if rng.random() < 0.12:
+        owner = enc_name([b"k"]) if rng.random() < 0.7 else boundary_owner(rng)
+        return rr(owner, 250, 255, 0, bad_tsig_rdata(rng))
     long = [b"x" * 63, b"y" * 63, b"z" * 63, b"w" * 61]
     key = rng.choice([[b"k"], [b"k"], [b"key", b"example"], [b"unknown"], long, [b"K"]])
     alg = rng.choice([[b"hmac-sha256"], [b"hmac-sha1"], [b"HMAC-SHA256"], [b"hmac-md5", b"sig-alg", b"reg", b"int"],
@@ -105,6 +198,8 @@ def gen_owner(rng, labels):
 
 
 def gen_plain_rr(rng):
+    if rng.random() < 0.06:
+        return rr(boundary_owner(rng), rng.choice([1, 99]), 1, 60, [1, 2, 3, 4])
     ty = rng.choice([1, 28, 10, 99, 65280])
     cl = rng.choice([1, 1, 3, 255])
     return rr(gen_owner(rng, dnsgen.rand_labels(rng, 2)), ty, cl, rng.choice([0, 60, 0x80000001]), dnsgen.lite_rdata(rng, ty, cl))
@@ -172,6 +267,8 @@ def gen_clean_case(rng):
     while True:
         cat, names = gen_catalog(rng, True)
         loaded = [e for e in cat.split(";") if e != "-" and e.split(",")[2] == "L"] if cat != "-" else []
+        removed = {(e.split(",")[0], e.split(",")[1].lower()) for e in cat.split(";") if e != "-" and e.split(",")[2] == "R"}
+        loaded = [e for e in loaded if (e.split(",")[0], e.split(",")[1].lower()) not in removed]
         if loaded:
             break
     e = rng.choice(loaded).split(",")
@@ -338,6 +435,45 @@ def resp_equal(impl, model):
 BAD = ("panic", "timeout", "crash")
 
 
+def spec_cols(oracle):
+    """verdicts of the extracted spec-level classifier carried by the oracle column:
+    fp=<first_problem verdict> sopt=<s_opt_reached> qoct=<request question octets | ->"""
+    d = {}
+    for tok in oracle.split():
+        for k in ("fp=", "sopt=", "qoct="):
+            if tok.startswith(k):
+                d[k[:-1]] = tok[len(k):]
+    return d
+
+
+def first_problem_ok(impl, oracle):
+    """Props/C08.v c08_first_problem / c08_formerr_response / c08_badvers_response / c08_silent_iff_first_problem,
+    evaluated on the implementation's response with the extracted classifier's verdict"""
+    fp = spec_cols(oracle).get("fp")
+    if fp is None:
+        return True
+    if fp == "silent":
+        return impl == "none"
+    if not impl.startswith("resp"):
+        return False
+    a = parse_resp(impl)
+    ar = a.get("AR", [])
+    opt = [x for x in ar if x.split("/")[1] == "41"]
+    tsig = [x for x in ar if x.split("/")[1] == "250"]
+    upper = (int(opt[0].split("/")[3]) >> 24) if opt else 0
+    nodata = a.get("an") == "0" and a.get("ns") == "0" and a.get("aa") == "0" and _only_pseudo(ar)
+    if fp.startswith("formerr:"):
+        return a.get("rc") == "1" and upper == 0 and not tsig and nodata
+    if fp.startswith("badvers:"):
+        return a.get("rc") == "0" and upper == 1 and len(opt) == 1 and not tsig and nodata
+    if fp.startswith("tsig:"):
+        return bool(tsig) or a.get("tc") == "1"
+    if fp == "clean":
+        # reaches the opcode dispatch with RCODE 0 and no TSIG: never FORMERR (extended RCODE 1), never a TSIG record
+        return not (a.get("rc") == "1" and upper == 0) and not tsig
+    return False
+
+
 def _both_resp(impl, oracle):
     return impl.startswith("resp") and oracle.startswith("resp")
 
@@ -383,7 +519,19 @@ def oracle_c03(case, impl, oracle):
         return impl.split()[0] == oracle.split()[0]
     a, b = parse_resp(impl), parse_resp(oracle)
     return all(a.get(k) == b.get(k) for k in ("id", "op", "rd", "qd", "Q")) and a.get("qr") == "1" \
-        and a.get("ra") == "0" and a.get("z") == "0" and question_echo_octets_ok(case, impl)
+        and a.get("ra") == "0" and a.get("z") == "0" and question_echo_octets_ok(case, impl) \
+        and spec_question_echo_ok(impl, oracle)
+
+
+def spec_question_echo_ok(impl, oracle):
+    """Props/C03.v c03_question_echo_octets: a response with a question to a request whose QNAME is uncompressed
+    (octets delimited by the extracted spec walker) carries exactly those octets at offset 12"""
+    q = spec_cols(oracle).get("qoct", "-")
+    d = parse_resp(impl)
+    if q == "-" or d.get("qd") != "1":
+        return True
+    raw = d.get("raw", "")
+    return raw[24:24 + len(q)] == q
 
 
 def finding_c03_pointer_qname(kf, case, impl, model, oracle):
@@ -420,6 +568,8 @@ def oracle_c07(case, impl, oracle):
 def oracle_c08(case, impl, oracle):
     if impl in BAD:
         return False
+    if not first_problem_ok(impl, oracle):
+        return False
     if not _both_resp(impl, oracle):
         return True
     a, b = parse_resp(impl), parse_resp(oracle)
@@ -450,6 +600,9 @@ def oracle_c09(case, impl, oracle):
             return False
     if len(oa) > 1:
         return False
+    sopt = spec_cols(oracle).get("sopt")
+    if sopt is not None and (len(oa) == 1) != (sopt == "1"):      # Props/C09.v c09_opt_iff_spec
+        return False
     ob = opt_of(b)
     if ob is None:                 # answered from a loaded zone: the model still knows the OPT... via ar? no: skip
         return True
@@ -463,7 +616,8 @@ def oracle_c09(case, impl, oracle):
 
 
 RULE = ("seeded requests from an independent Python builder against seeded catalogs (0-4 nested entries over {., a., b.a., c.b.a., "
-        "example., sub.example., Example.} in classes IN/CH/7, Loaded/NotYetLoaded/FailedToLoad) and TSIG key sets; header flags incl. "
+        "example., sub.example., Example.} in classes IN/CH/7, Loaded/NotYetLoaded/FailedToLoad, with interleaved Catalog::remove "
+        "operations on parents/children/absent names) and TSIG key sets; header flags incl. "
         "all opcodes and QR; 0/1/2 questions (QNAMEs around the zone names with case variants, occasionally a bare pointer); "
         "answer/authority records incl. misplaced OPT/TSIG; additional sections with ordinary records, OPT (versions, top-bit TTLs, "
         "non-root owners, payload sizes around 512/1232/65535) and TSIG (known/unknown keys and algorithms, 255-octet names, wrong "
